@@ -702,6 +702,11 @@ def run(ctx):
     # emitted identifier would be another one and the output would not compile
     from . import c12
     rules.append(c12.r12_7(prog, load_tables("c12"), rid="R10.15"))
+    # R10.16: the compiler builds every emitted line through (v)snprintf into growing buffers (abuf_printf, asn1c_compiled_output,
+    # asn1p_itoa_s, ...): the fit test follows C99 7.19.6.5 (rules/fit.py); `length <= size` trips abuf_printf's own assertion
+    # (asn1c dies) or emits a line short of its last character (output does not build)
+    from . import fit
+    rules.append(fit.snprintf_fit(prog, "R10.16", 9, "the compiler and its support libraries"))
     # R10.9: asn1c terminates: exact rule over every loop of the compiler
     from . import termination
     rules.append(termination.rule_for(prog, "R10.9", "the compiler (parser actions, fixer, printer, code generator)", set(prog.funcs.keys()), 250))
